@@ -86,6 +86,17 @@ def possible_outputs(cfg):
     return pos
 
 
+def _instrument():
+    """Bytecodes of the code that shares _n_procs/_exceptions/_stop/read_waiters between the parent's threads become
+    pre-emption points: Multiprocessor.filter with its two completion callbacks, Stopper, and the join-and-call /
+    result-collection code of ProcessLine and ThreadLine."""
+    from sim.opcodes import instrument
+    import coba.pipes.multiprocessing as M
+    import coba.pipes.lines as L
+    return instrument([M.Multiprocessor.filter, M.Stopper.stop, M.Stopper.filter, L.ProcessLine.start, L.ProcessLine.join,
+                       L.ProcessLine._get_result, L.ThreadLine.start, L.ThreadLine.run])
+
+
 def _sig(sim):
     qs = tuple((c.kind[0], len(c.pipe), c.count) for c in sim.registry.values() if getattr(c, "kind", "") == "queue")
     ts = tuple((t.name[:6], (t.why or "").split(" ")[0]) for t in sim.tasks if not t.done)
@@ -145,7 +156,9 @@ class C08:
             "consumer": consumer, "items_as": weighted(rng, [("list", 3), ("iter", 1)]),
             "knobs": {"feeder_delay": rng.random() < 0.5, "pipe_cap": weighted(rng, [(None, 4), (1, 1), (3, 1)]),
                       "p_stay": weighted(rng, [(0.0, 2), (0.5, 2), (0.9, 1)]),
-                      "slow_main": rng.random() < 0.25, "log_lines": coba_mp and rng.random() < 0.7},
+                      "slow_main": rng.random() < 0.25, "log_lines": coba_mp and rng.random() < 0.7,
+                      # bytecode-level pre-emption of the parent's threads (callbacks, loader, consumer) at planned opcode counts
+                      "opcode_plan": sorted(rng.randrange(1, 700) for _ in range(1 + rng.randrange(4))) if rng.random() < 0.35 else None},
         }
 
     # ------------------------------------------------------------------ one simulated run
@@ -158,6 +171,9 @@ class C08:
         sim.user["pipe_cap"] = kn["pipe_cap"]
         sim.user["c08_seen"] = []
         sim.sig_fn = _sig
+        _instrument()
+        if kn.get("opcode_plan"):
+            sim.opcode_plan = list(kn["opcode_plan"])
         if kn["slow_main"]:
             sim.slow_bias = 0.7
         log_sink = ListSinkH()
@@ -291,6 +307,12 @@ class C08:
         for flag in ("read_wait", "coba_mp"):
             if cfg[flag]:
                 c = copy.deepcopy(cfg); c[flag] = False; c["knobs"]["log_lines"] = False; yield c
+        if cfg["knobs"].get("opcode_plan"):
+            pl = cfg["knobs"]["opcode_plan"]
+            c = copy.deepcopy(cfg); c["knobs"]["opcode_plan"] = None; yield c
+            for i in range(len(pl)):
+                if len(pl) > 1:
+                    c = copy.deepcopy(cfg); c["knobs"]["opcode_plan"] = pl[:i] + pl[i + 1:]; yield c
         for k, v in (("feeder_delay", False), ("pipe_cap", None), ("slow_main", False), ("log_lines", False), ("p_stay", 0.9)):
             if cfg["knobs"][k] != v:
                 c = copy.deepcopy(cfg); c["knobs"][k] = v; yield c
